@@ -628,11 +628,10 @@ TaskFinish(m, key) == /\ Can("TaskFinish") /\ AtTop /\ <<m, key>> \in S.trun
                       /\ LET s1 == [S EXCEPT !.trun = @ \ {<<m, key>>}, !.xdue = @ \cup {<<m, "task", key>>}]
                          IN \* the thread that became free takes the next task from the queue
                             S' = IF s1.tq = <<>> THEN s1 ELSE [s1 EXCEPT !.trun = @ \cup {Head(s1.tq)}, !.tq = Tail(@)]
-\* m_mod_set_tokenbucket(): the old refill timer goes (a rate-limited call under the old bucket), the new bucket starts full,
+\* m_mod_set_tokenbucket(): the old refill timer goes (whatever is left in the old bucket: it is being replaced), the new bucket starts full,
 \* its refill timer is registered (a rate-limited call under the new bucket: with burst 0 it fails with EAGAIN)
 SetTokenBucket(m, v) ==
     /\ Can("SetTokenBucket") /\ Handle(m) /\ m \in Targets /\ v \in TbVals
-    /\ ~NoTok(m)                                              \* (modelling bound: not re-configured while exhausted)
     /\ IF ModRefused(m) THEN Refuse(NEG)
        ELSE LET s0 == [S EXCEPT !.idue = @ \ {<<m, "tb">>}] IN
             IF v[1] = 0 THEN Do([s0 EXCEPT !.mod[m].tb = [rate |-> 0, burst |-> 0, tok |-> 0, tmr |-> FALSE], !.ret = 0])
